@@ -130,8 +130,8 @@ def harness_target_dir(profile_release=False):
     return os.path.join(HARNESS, "target-" + repo_tag())
 
 
-def harness_bin(release=False):
-    return os.path.join(harness_target_dir(), "release" if release else "debug", "emlv")
+def harness_bin(pid, release=False):
+    return os.path.join(harness_target_dir(), "release" if release else "debug", "emlv-" + pid)
 
 
 def hooks_available():
@@ -142,7 +142,10 @@ def hooks_available():
         return False
 
 
-def build_harness(release=False):
+def build_harness(pid=None, release=False):
+    """Builds the harness binary of one property (or of all, pid=None) against the checkout under
+    test; one binary per property (harness/src/bin/emlv-Cxx.rs) keeps rebuilds after a change
+    of the checkout small.  Returns the path of the property's binary."""
     with Lock("cargo"):
         with open(os.path.join(HARNESS, "Cargo.toml.in")) as f:
             tmpl = f.read()
@@ -158,14 +161,15 @@ def build_harness(release=False):
         if not os.path.exists(lock):
             shutil.copy(os.path.join(REPO, "Cargo.lock"), lock)
         cmd = ["cargo", "build", "--offline", "--quiet", "--target-dir", harness_target_dir()]
+        cmd += ["--bin", "emlv-" + pid] if pid else ["--bins"]
         if release:
             cmd.append("--release")
         env = dict(ENV)
         env["RUSTFLAGS"] = env.get("RUSTFLAGS", "") + " -Awarnings"
-        rc, out, err = sh(cmd, cwd=HARNESS, check=False, env=env, timeout=1800)
+        rc, out, err = sh(cmd, cwd=HARNESS, check=False, env=env, timeout=3600)
         if rc != 0:
             raise MachineryError("harness build failed against " + REPO + ":\n" + err[-6000:])
-    return harness_bin(release)
+    return harness_bin(pid, release) if pid else None
 
 
 def lake_build(targets):
@@ -494,6 +498,13 @@ def check(pid, tier, seed):
     coverage = {}
     replay_n = 0
 
+    # --- 0. optional per-property preparation (e.g. C20 regenerates a Lean table from the repo) ---
+    extra = load_extra(pid)
+    if extra is not None and hasattr(extra, "pre"):
+        os.makedirs(os.path.join(WORK, pid), exist_ok=True)
+        extra.pre({"pid": pid, "tier": tier, "seed": seed, "root": ROOT, "repo": REPO, "lean": LEAN,
+                   "work": os.path.join(WORK, pid), "sh": sh, "log": log, "MachineryError": MachineryError})
+
     # --- 1. theorems -------------------------------------------------------------------------
     theorems = reg.get("theorems", [])
     module = reg.get("lean_module")
@@ -522,7 +533,7 @@ def check(pid, tier, seed):
         raise MachineryError("lake build emlmodel failed:\n" + out[-4000:])
 
     # --- 2. correspondence -------------------------------------------------------------------
-    bin_path = build_harness()
+    bin_path = build_harness(pid)
     corr = None
     if reg.get("protocol", "line") == "line":
         corr = correspondence(pid, reg, tier, seed, bin_path)
@@ -533,7 +544,8 @@ def check(pid, tier, seed):
     if extra is not None:
         ctx = {"pid": pid, "tier": tier, "seed": seed, "root": ROOT, "repo": REPO, "work": os.path.join(WORK, pid),
                "bin": bin_path, "sh": sh, "lake_build": lake_build, "lean": LEAN, "env": ENV,
-               "build_harness": build_harness, "model_bin": MODEL_BIN, "log": log, "corr": corr,
+               "build_harness": build_harness, "bin_for": lambda p, release=False: build_harness(p, release),
+               "model_bin": MODEL_BIN, "log": log, "corr": corr,
                "MachineryError": MachineryError, "harness_target_dir": harness_target_dir()}
         os.makedirs(ctx["work"], exist_ok=True)
         extra_result = extra.run(ctx)
@@ -680,7 +692,7 @@ def replay(path):
             log(out + err)
             return rc
         return 0
-    bin_path = build_harness()
+    bin_path = build_harness(pid)
     lake_build(["emlmodel"])
     rc, il, ml = rerun_pair(bin_path, pid, payload["ops"], "replay")
     bad = 0
@@ -702,7 +714,7 @@ def setup():
         log(out[-6000:])
         raise MachineryError("lake build failed")
     log(f"lake build ok ({time.time() - t0:.0f}s)")
-    build_harness()
+    build_harness(None)
     log(f"harness build ok ({time.time() - t0:.0f}s)")
     for pid in all_property_ids():
         reg = load_registry(pid)
